@@ -2,8 +2,8 @@
 # Each harness is a Go function in /verif/harness (package rapid) executed
 # symbolically by gosym against /repo's working tree.
 
-def H(name, bounds="", reach=(), native=True, thorough_only=False, quick=None, thorough=None, nodiff=False, opts=None, search=None, must_reach=None, unreach_job=None):
-    return {"name": name, "bounds": bounds, "reach": list(reach), "native": native,
+def H(name, bounds="", reach=(), native=True, thorough_only=False, quick=None, thorough=None, nodiff=False, opts=None, search=None, must_reach=None, unreach_job=None, race=False):
+    return {"name": name, "race": race, "bounds": bounds, "reach": list(reach), "native": native,
             "thorough_only": thorough_only, "quick": quick or {}, "thorough": thorough or {},
             "nodiff": nodiff, "opts": opts or {}, "search": search or [], "must_reach": must_reach or [], "unreach_job": unreach_job}
 
@@ -34,7 +34,22 @@ def _band_job(label):
 
 WITNESSES = ["witness-%d" % b for b in range(65)]
 
+CONC_ASSUME = ["interleavings: sequentially consistent, context switches at synchronisation operations only (mutex/rwmutex lock, Once.Do, atomic load/store, sync.Map, WaitGroup.Wait, go, goroutine end); sufficient for race detection because the first race of an execution is exhibited by an execution that is race-free up to it",
+               "preemption bound: at most 2 (quick) / 2-3 (thorough) preemptive switches per path; switches at blocking operations and goroutine exits are free",
+               "sync.Mutex/RWMutex/Once/WaitGroup/atomic/sync.Map are models with the happens-before edges of the Go memory model (unlock->lock, RUnlock->Lock, Once completion->Do return, atomic store->load, Done->Wait, go->goroutine start); writer starvation and fairness are not modelled",
+               "the testing.TB behind T (Helper/Name/Logf/Log) and log.Logger are goroutine-safe by contract and have no shared state in the harness",
+               "schedule variables are case-split by the executor (every value explored); the solver's part is the choice of operations and the model reported with a violation"]
+
 PROPS = {
+    "C14": {
+        "level": "model_checking",
+        "harnesses": [
+            H("H_C14_pairs", "2 goroutines started by the property, one call each from {Helper+Name, Logf, Errorf, Fail, Failed, Context, Cleanup} (solver-chosen, unordered pair), logging off / through TB / through a raw logger, goroutines joined by the body or only inside a cleanup callback (overlapping failOnError, context cancellation and the cleanup loop); every interleaving of synchronisation operations with <=2 (quick) / <=3 (thorough) preemptions", reach=["joined", "overlapping-end", "signalled", "context"], quick=Q, thorough=T, race=True),
+            H("H_C14_withBody", "1 goroutine with 2 calls running concurrently with 1 call made by the property's own goroutine, same alphabet, logging off / through TB, joined or not; <=2 preemptions", reach=["joined", "overlapping-end", "signalled", "context"], quick=Q, thorough=T, race=True),
+            H("H_C14_sequences", "2 (quick) / 3 (thorough) goroutines with 2 calls each from {Errorf, Failed, Context, Cleanup}, joined; <=1 (quick) / <=2 (thorough) preemptions", reach=["joined", "signalled", "context"], quick=Q, thorough=T, race=True),
+        ],
+        "assumptions": ENGINE_ASSUME + CONC_ASSUME,
+    },
     "C18": {
         "level": "model_checking",
         "harnesses": [
